@@ -309,7 +309,7 @@ def make_run_one(opname, plan, flip=0):
     for p, _ in plan:
         if p not in positions:
             raise HarnessError(f'{opname} has no position {p}')
-    logging.disable(logging.CRITICAL)
+    logging.disable(logging.NOTSET)  # records are built and formatted by boot._FormatAndDrop, then dropped
 
     def run_one(chooser):
         loop = vloop.VLoop(chooser, reorder_ready=False)
